@@ -1276,6 +1276,11 @@ class CombineMapper(CachedMapper[ResultT, FunctionResultT, P]):
         return self.combine(
             *self.rec_idx_or_size_tuple(expr.shape, *args, **kwargs))
 
+    def map_size_param(
+            self, expr: SizeParam, *args: P.args, **kwargs: P.kwargs) -> ResultT:
+        return self.combine(
+            *self.rec_idx_or_size_tuple(expr.shape, *args, **kwargs))
+
     def map_stack(self, expr: Stack, *args: P.args, **kwargs: P.kwargs) -> ResultT:
         return self.combine(
             *(
